@@ -9,9 +9,13 @@ def sh(cmd, cwd=None, env=None, timeout=900):
     p = subprocess.run(cmd, shell=True, cwd=cwd, env=env, capture_output=True, text=True, timeout=timeout)
     return p.returncode, p.stdout + p.stderr
 
+ROOT = os.environ.get("TWIN_ROOT", "/tmp/wtr")
+TAG = os.environ.get("TWIN_TAG", "")
+
+
 def one(args):
     pid, k = args
-    src = f"/tmp/wtr/{pid}/out/{k}"
+    src = f"{ROOT}/{pid}/out/{k}"
     if not os.path.exists(f"{src}/patch.diff"):
         return None
     wt = tempfile.mkdtemp(prefix=f"vt_{pid}_{k}_", dir="/tmp"); os.rmdir(wt)
@@ -19,14 +23,14 @@ def one(args):
         rc, out = sh(f"git -C /repo worktree add --detach {wt} HEAD")
         rc, out = sh(f"git apply {src}/patch.diff", cwd=wt)
         if rc != 0:
-            return {"id": f"{pid}-{k}", "applies": False, "err": out[-200:]}
+            return {"id": f"{pid}-{TAG}{k}", "applies": False, "err": out[-200:]}
         env = dict(os.environ, PYTHONPATH=f"{wt}/src")
         rc, out = sh("/venv/bin/python -m pytest -q -p no:cacheprovider --timeout=900 --continue-on-collection-errors 2>&1 | tail -1", cwd=wt, env=env)
         m = re.search(r"(\d+) passed", out); f = re.search(r"(\d+) failed", out)
         ok = bool(m and int(m.group(1)) == 1178 and (not f or int(f.group(1)) <= 4))
-        res = {"id": f"{pid}-{k}", "applies": True, "suite": out.strip(), "suite_ok": ok}
+        res = {"id": f"{pid}-{TAG}{k}", "applies": True, "suite": out.strip(), "suite_ok": ok}
         if ok:
-            dst = f"/verif/twins/{pid}-{k}"; os.makedirs(dst, exist_ok=True)
+            dst = f"/verif/twins/{pid}-{TAG}{k}"; os.makedirs(dst, exist_ok=True)
             shutil.copy(f"{src}/patch.diff", dst)
             try:
                 meta = json.load(open(f"{src}/meta.json"))
